@@ -639,7 +639,9 @@ func FuzzyMatchV2(caseSensitive bool, normalize bool, forward bool, input *util.
 				}
 				i--
 			}
-			preferMatch = C[I+j0] > 1 || I+width+j0+1 < len(C) && C[I+width+j0+1] > 0
+			// The cell of the next row is only written from the first occurrence of
+			// its pattern character onwards; the scratch memory before it is stale
+			preferMatch = C[I+j0] > 1 || I+width+j0+1 < len(C) && j+1 >= int(F[I/width+1]) && C[I+width+j0+1] > 0
 			j--
 		}
 	}
